@@ -178,7 +178,11 @@ pub fn last_state_proof(
             &boundary,
         ) {
             Some((n, _)) => n,
-            None => return ProofAnswer::Silent("boundary not in range".into()),
+            // The boundary lies inside the last block itself (possible when the last blocks
+            // carry more difficulty than the delta region, e.g. tiny last-N). ckb 0.113 refuses
+            // such a request; the model is deliberately lenient and serves the last-N blocks,
+            // so that no alarm depends on this corner of the server.
+            None => last_number - last_n_blocks,
         };
         if last_number - boundary_number < last_n_blocks {
             boundary_number = last_number - last_n_blocks;
